@@ -26,6 +26,7 @@ type PropSpec struct {
 	ExcludePkgs []string `json:"exclude_pkgs"` // packages whose functions are trusted (not swept), with the reason in notes
 	Kinds      []string `json:"kinds"`       // obligation kinds claimed (empty = all)
 	SweepKinds []string `json:"sweep_kinds"` // kinds claimed for functions reached only by the sweep
+	ExcludeObligations []string `json:"exclude_obligations"` // obligations of the listed functions that belong to another property
 	Lemmas     []string `json:"lemmas"`
 	Trusted    []string `json:"trusted_base"`
 	Uncovered  []string `json:"uncovered"`
@@ -454,6 +455,15 @@ func checkProperty(id, tier string) int {
 		}
 		for _, o := range r.obligs {
 			if !kindClaimed(kinds, o.Kind) {
+				continue
+			}
+			skip := false
+			for _, ex := range prop.ExcludeObligations {
+				if strings.Contains(o.Name, ex) {
+					skip = true
+				}
+			}
+			if skip {
 				continue
 			}
 			g := groups[o.Name]
